@@ -770,8 +770,11 @@ async fn subscribe(ctl: &Matter<'_>, sid: u32, tag: u16) -> Result<(), Error> {
     Ok(())
 }
 
-async fn case_handshake(ctl: &Matter<'_>, fab: NonZeroU8, peer_node: u64) -> Result<(), Error> {
-    let crypto = test_only_crypto();
+async fn case_handshake(ctl: &Matter<'_>, fab: NonZeroU8, peer_node: u64, seed: u64) -> Result<(), Error> {
+    // every handshake draws its own ephemeral material (initiator random, ephemeral node id,
+    // first message counter): the test-only generator would repeat them
+    use rand::SeedableRng;
+    let crypto = rs_matter::crypto::default_crypto(rand::rngs::StdRng::seed_from_u64(0xC07_C000 + seed), rs_matter::dm::devices::test::DAC_PRIVKEY);
     let exchange = Exchange::initiate_plaintext(ctl, &crypto, e2e::node_addr(DEV)).await?;
     CaseInitiator::perform(exchange, &crypto, fab, peer_node).await
 }
@@ -1156,9 +1159,17 @@ fn run_incarnation(base: &Base, g: &mut Ghost, blobs: &BTreeMap<u16, Vec<u8>>, o
                             "nospace".to_string()
                         } else {
                             let before = session_ids(&ctl);
-                            let res = case_handshake(&ctl, NonZeroU8::new(*r as u8 + 1).unwrap(), DEV_NODE + *r as u64).await;
+                            let attempt = {
+                                let mut gb = g.borrow_mut();
+                                gb.resume_attempts += 1;
+                                gb.resume_attempts
+                            };
+                            let res = case_handshake(&ctl, NonZeroU8::new(*r as u8 + 1).unwrap(), DEV_NODE + *r as u64, attempt).await;
                             if std::env::var("C07_DEBUG").is_ok() {
                                 eprintln!("establish {}: {:?} at {} ms", r, res.as_ref().map_err(|e| e.code()), net.elapsed_ms());
+                                for t in net.tap().iter().rev().take(12).rev() {
+                                    eprintln!("   {} -> {} len {} at {} ms hdr {:?}", t.src, t.dst, t.bytes.len(), t.t_ms, &t.bytes[..t.bytes.len().min(24)]);
+                                }
                             }
                             settle(&dev, &ctl).await;
                             if std::env::var("C07_DEBUG").is_ok() {
@@ -1211,7 +1222,7 @@ fn run_incarnation(base: &Base, g: &mut Ghost, blobs: &BTreeMap<u16, Vec<u8>>, o
                                 let before_dev = session_ids(&dev);
                                 // the destination id names no fabric of the device (unknown node id): if the
                                 // device declines the resumption, the full handshake it falls back to fails
-                                let res = e2e::with_timeout(if wire { 3000 } else { 15000 }, case_handshake(&ctl, cfab, bogus)).await;
+                                let res = e2e::with_timeout(if wire { 3000 } else { 15000 }, case_handshake(&ctl, cfab, bogus, attempt)).await;
                                 settle(&dev, &ctl).await;
                                 remove_plaintext(&dev);
                                 remove_plaintext(&ctl);
